@@ -111,11 +111,36 @@ fn generated() -> Vec<Base> {
                 xbook.sheets[0].cells.insert((r, c), MCell { val: Val::Num(1.0), xf: None, formula: Some("x".into()) });
             }
         }
+        // a second shared group whose master is its last row; that row is then moved to the front
+        // of sheetData, so that the members are read after the master and lie above it (their
+        // relative references move towards, and past, row 1)
+        xbook.sheets[0].shared.push(MShared { si: 1, rect: ((40, 5), (43, 5)), master: (43, 5), text: "A2+B1".into() });
+        for r in 40..44 {
+            xbook.sheets[0].cells.insert((r, 5), MCell { val: Val::Num(2.0), xf: None, formula: Some("x".into()) });
+        }
         let mut ch = XlsxChoices::default();
         ch.forms = crate::enc::xlsx::ALL_FORMS.to_vec();
         ch.extras = true;
         ch.vba = Some(vba_bin.clone());
-        v.push(Base { name: "generated.xlsm".into(), fmt: Fmt::Xlsx, bytes: crate::enc::xlsx::encode(&xbook, &ch, &mut rng).bytes });
+        let mut bytes = crate::enc::xlsx::encode(&xbook, &ch, &mut rng).bytes;
+        if let Some(mut parts) = crate::enc::zipw::read_all(&bytes) {
+            if let Some(p) = parts.iter_mut().find(|p| p.name.ends_with("worksheets/sheet1.xml")) {
+                let x = String::from_utf8_lossy(&p.data).into_owned();
+                if let (Some(a), Some(sd)) = (x.find("<row r=\"44\""), x.find("<sheetData>")) {
+                    if let Some(len) = x[a..].find("</row>") {
+                        let row = x[a..a + len + 6].to_string();
+                        let mut y = String::with_capacity(x.len());
+                        y.push_str(&x[..sd + 11]);
+                        y.push_str(&row);
+                        y.push_str(&x[sd + 11..a]);
+                        y.push_str(&x[a + len + 6..]);
+                        p.data = y.into_bytes();
+                    }
+                }
+            }
+            bytes = crate::enc::zipw::build(&parts);
+        }
+        v.push(Base { name: "generated.xlsm".into(), fmt: Fmt::Xlsx, bytes });
     }
     {
         let mut ch = XlsbChoices::default();
